@@ -69,7 +69,7 @@ CFG = {
             "ring moved to / rings exchanged between sibling member polygons of a multi-polygon or collection (F). "
             "REPEATED members: every member-list kind (lines, rings, polygons of a multi-polygon, rings of one member polygon, collection of points, "
             "collection of mixed types) at 65/66/67/70, 128..131 and 5/33/63/64 members with two or three bit-identical copies of one member at positions "
-            "(n-2,n-1), (<64,n-1), (63,64): copy / combo (T), one copy displaced with the other kept, also permuted+perturbed with the kept copy last (F), "
+            "(n-2,n-1), (<64,n-1), (63,64), and at 257/258/260/300 members (one kind per call, copies last): copy / combo (T), one copy displaced with the other kept, also permuted+perturbed with the kept copy last (F), "
             "another member replaced by a further copy (F); judged by the specification under blockSeparated. "
             "two vertices of a point list exchanged (F), a whole member shifted rigidly (F), one vertex displaced at index 1,2,k/2,k/2+1,k-3,k-2 of lists "
             "of 64..2048 vertices and of a 1025-vertex ring (F). "
